@@ -186,8 +186,8 @@ def history_of_lifecycles(ctx: RunCtx) -> BoundedResult:
     from .c01_bounded import py_spec_step
     from .realapp import new_invocation, real_app, runner_ctx
     thorough = ctx.tier == "thorough"
-    L = 5 if thorough else 4      # thorough: every sequence up to length 5 in memory; SQLite up to 4 and one in eleven of length 5
-    res = BoundedResult("history_of_lifecycles", f"request sequences up to length {L} (quick: all of length <= 2 and a fixed sample of the longer ones; thorough: all up to 5 in memory, all up to 4 and one in eleven of length 5 on SQLite) over a reduced alphabet (PENDING, RUNNING, RETRY, SUCCESS, "
+    L = 5 if thorough else 4      # thorough: sampled beyond length 4 (memory) / 3 (SQLite), see the description below
+    res = BoundedResult("history_of_lifecycles", f"request sequences up to length {L} (quick: all of length <= 2 and a fixed sample of the longer ones; thorough: all up to length 4 and one in five of length 5 in memory; all up to 3, one in three of length 4 and one in 41 of length 5 on SQLite) over a reduced alphabet (PENDING, RUNNING, RETRY, SUCCESS, "
                         "KILLED, REROUTED, PENDING_RECOVERY by runners A/B) on both backends; after flushing, the stored history must equal "
                         "REGISTERED followed by exactly the accepted requests, in order, each naming its requester")
     alphabet = [(S.PENDING, "A"), (S.PENDING, "B"), (S.RUNNING, "A"), (S.RETRY, "A"), (S.SUCCESS, "A"), (S.KILLED, "A"), (S.REROUTED, "A"),
@@ -199,7 +199,9 @@ def history_of_lifecycles(ctx: RunCtx) -> BoundedResult:
                 for seq in itertools.product(range(len(alphabet)), repeat=length):
                     if (not thorough) and length >= 3 and (sum((i + 3) * v for i, v in enumerate(seq)) % (23 if backend == "sqlite" else 5)):
                         continue
-                    if thorough and backend == "sqlite" and length >= 5 and (sum((i + 3) * v for i, v in enumerate(seq)) % 11):
+                    if thorough and length >= 5 and (sum((i + 3) * v for i, v in enumerate(seq)) % (41 if backend == "sqlite" else 5)):
+                        continue
+                    if thorough and backend == "sqlite" and length == 4 and (sum((i + 3) * v for i, v in enumerate(seq)) % 3):
                         continue
                     inv = new_invocation(app)
                     n += 1
